@@ -37,6 +37,35 @@ def check_polygon_ctor(prog, report):
                  'with offset pw_start[i] and pw_start[i+1] = pw_start[i] + '
                  'side length: arc length, continuous at the break points',
                  construct='PiecewisePolygon: piece offsets')
+    # a polygon declared closed repeats its first vertex exactly
+    vpar, cpar = fi.params[1], fi.params[2]
+    okx = False
+
+    def exact_closure(test):
+        t = text(test).replace(' ', '')
+        return ('%s[0]' % vpar in t and '%s[-1]' % vpar in t and not any(
+            isinstance(n, ast.Call) and text(n.func).split('.')[-1] in (
+                'isclose', 'allclose') for n in ast.walk(test))) and (any(
+                    isinstance(n, ast.Compare) and len(n.ops) == 1
+                    and isinstance(n.ops[0], ast.Eq)
+                    for n in ast.walk(test)) or 'array_equal(' in t)
+
+    for n in fi.node.body:
+        if isinstance(n, ast.If) and text(n.test) == cpar and not n.orelse:
+            okx = okx or any(isinstance(m, ast.Assert) and exact_closure(
+                m.test) for m in n.body)
+        if isinstance(n, ast.Assert) and isinstance(
+                n.test, ast.BoolOp) and isinstance(n.test.op, ast.Or) and \
+                any(text(v).replace(' ', '') == 'not' + cpar
+                    for v in n.test.values):
+            okx = okx or exact_closure(n.test)
+    report.check(okx, 'R-pieces', 'PiecewisePolygon exact closure',
+                 fi.where(),
+                 'when declared closed the vertex list must end in its first '
+                 'vertex, compared exactly (the base class only compares '
+                 'gamma(0) and gamma(L) up to a relative tolerance, and the '
+                 'mesh glues x = 0 to x = L on the strength of the flag)',
+                 construct='PiecewisePolygon: exact closure')
     # closedness flag of the shipped curves
     flags = {}
     for cname in ('UnitSquare', 'PiSquare', 'LShape', 'UnitInterval'):
